@@ -155,6 +155,8 @@ ALL_COMPS = [c for n in range(3, 8) for c in compositions(n)]     # 1 + 3 + 7 + 
 
 def pca_data(rng, n, d, kind):
     X = rng.normal(size=(n, d)) * rng.uniform(0.5, 3.0, d) * np.linspace(1.0, 2.5, d) + rng.normal(size=d) * 2
+    if kind == "integer_samples":
+        X = np.round(X * 40.0)           # counts / pixel sums: integer-valued (handed over as integer arrays by run_pca)
     if kind == "large_values":
         X = X * 10.0 ** rng.uniform(5, 10)                 # raw sensor / pixel-sum magnitudes (menpo's documented cut-off is an absolute 1e-10)
     if kind == "zero_column":
@@ -174,6 +176,9 @@ def run_pca(ctx, rng, comp, d, centre, kind):
     PDATA.clear()
     cuts = np.cumsum([0] + comp)
     chunks = [X[a:b] for a, b in zip(cuts[:-1], cuts[1:])]
+    if kind == "integer_samples":
+        # (the constructor centres in place and therefore wants floating point data; increments take the samples as they come)
+        chunks = [chunks[0]] + [c.astype(np.int64) for c in chunks[1:]]
     m = PCAVectorModel(chunks[0].copy(), centre=centre)
     for c in chunks[1:]:
         if m.n_components > 1 and rng.random() < 0.35:
@@ -188,7 +193,7 @@ def w_pca_exhaustive(ctx, rng, i):
     variant = i // len(ALL_COMPS)
     centre = bool(variant % 2 == 0)
     d = [3, 12][(variant // 2) % 2]                         # below and above n
-    kind = ["plain", "zero_column", "zero_mean_first_batch", "large_values"][(variant // 4) % 4]
+    kind = ["plain", "zero_column", "zero_mean_first_batch", "large_values", "integer_samples"][(variant // 4) % 5]
     run_pca(ctx, rng, comp, d, centre, kind)
     ctx.count_case(("pca", tuple(comp), centre, d, kind), nontrivial=True,
                    sample={"model": "PCA", "composition": comp, "centred": centre, "d": d, "data": kind} if i < 4 else None)
@@ -204,7 +209,7 @@ def w_pca_random(ctx, rng, i):
     cuts = sorted(rng.choice(np.arange(1, rest), size=min(k - 1, max(0, rest - 1)), replace=False).tolist()) if rest > 1 and k > 1 else []
     comp = [first] + [b - a for a, b in zip([0] + cuts, cuts + [rest])]
     centre = bool(rng.random() < 0.6)
-    kind = ["plain", "plain", "zero_column", "zero_mean_first_batch", "large_values"][rng.integers(0, 5)]
+    kind = ["plain", "plain", "zero_column", "zero_mean_first_batch", "large_values", "integer_samples"][rng.integers(0, 6)]
     m1, X = run_pca(ctx, rng, comp, d, centre, kind)
     # a different splitting of the same data agrees with the first one
     comp2 = [comp[0] + comp[1]] + comp[2:] if len(comp) > 2 else [max(2, n // 2), n - max(2, n // 2)]
@@ -284,7 +289,13 @@ def w_gmrf(ctx, rng, i):
     m = GMRFVectorModel(X[:n0].copy(), g, mode=mode, dtype=dtype, sparse=sparse, bias=bias, incremental=True)
     a = n0
     for c in incs:
-        m.increment(X[a:a + c].copy() if rng.random() < 0.5 else [row.copy() for row in X[a:a + c]])
+        if rng.random() < 0.25:
+            # the documented progress-report flag changes what is printed, nothing else
+            import io, contextlib
+            with contextlib.redirect_stdout(io.StringIO()):
+                m.increment(X[a:a + c].copy(), verbose=True)
+        else:
+            m.increment(X[a:a + c].copy() if rng.random() < 0.5 else [row.copy() for row in X[a:a + c]])
         a += c
     # another splitting of the same data
     gmrfmon.clear()
@@ -347,7 +358,7 @@ def w_gmrf_object(ctx, rng, i):
 
 
 WORKLOADS = [
-    Workload("pca_every_composition", w_pca_exhaustive, quick=len(ALL_COMPS) * 16, thorough=len(ALL_COMPS) * 16 * 20, exhaustive=True),
+    Workload("pca_every_composition", w_pca_exhaustive, quick=len(ALL_COMPS) * 20, thorough=len(ALL_COMPS) * 20 * 20, exhaustive=True),
     Workload("pca_random", w_pca_random, quick=400, thorough=20000),
     Workload("pca_object", w_pca_object, quick=100, thorough=3000),
     Workload("gmrf", w_gmrf, quick=576, thorough=20000),
